@@ -24,9 +24,12 @@ Print Assumptions C01_normalisation_sound.
 (** The programs quantifier, for the Gallina model [Lower.lower] of the compiler's lowering
     (IrGenerator._apply_impl: open blocks, one new state per await / loop head, first-state special
     case, code after a branching construct duplicated into every open block, continue = inlined loop
-    head): for EVERY program of the grammar [Lower.in_grammar] (Skip, Eff, Seq, If, While with
-    Break / Continue, always-false while, await cond / true / false; every continue separated from its
-    loop head by a clock; the interpreter fuel [Coro.ref_fuel] statically sufficient) and EVERY input
+    head, awaited sub-coroutine lowered in place with return = open block after the call): for EVERY
+    program of the grammar [Lower.in_grammar] (Skip, Eff, Seq, If, While with Break / Continue,
+    always-false while, await cond / true / false, Call of a sub-coroutine with Return; break/continue
+    only inside a loop of the same coroutine, return only inside a call and not as the very first
+    action of the process, every continue separated from its loop head by a clock; the interpreter
+    fuel [Coro.ref_fuel] statically sufficient; NOT covered: wait_for) and EVERY input
     sequence of any length the lowered machine has the trace of the coroutine semantics.  The model is
     tied to the real compiler per generated program (harness/c01.py, theorem case_low). *)
 Theorem C01_lower_correct :
@@ -41,7 +44,7 @@ Theorem C01_lower_correct_mstep :
 Proof. exact lower_correct_mstep. Qed.
 Print Assumptions C01_lower_correct_mstep.
 
-(** non-vacuity of [in_grammar]: nested while / await / break / continue, at least 3 states *)
+(** non-vacuity of [in_grammar]: nested while / await / break / continue / call with return, at least 3 states *)
 Example C01_lower_nonvacuous :
   in_grammar ex_prog = true /\ Nat.leb 3 (length (lower ex_prog)) = true.
 Proof. exact ex_prog_ok. Qed.
